@@ -7,6 +7,7 @@
 //! harness takes control of a schedule) but must not allocate when it is
 //! called from the audio thread.
 
+use std::sync::atomic::{AtomicU64, Ordering};
 use std::sync::{Arc, RwLock};
 
 /// The type of a verification hook.
@@ -25,4 +26,19 @@ pub(crate) fn point(site: &'static str, a: usize, b: usize) {
 	if let Some(hook) = hook {
 		hook(site, a, b);
 	}
+}
+
+static NAN_SCRUBBED: AtomicU64 = AtomicU64::new(0);
+
+/// The number of NaN samples the renderer has replaced by silence before
+/// handing its output to the device, process-wide. A test harness reads it
+/// before and after a callback to learn that something inside the mixer
+/// produced a NaN even though the device never saw it.
+pub fn nan_scrubbed() -> u64 {
+	NAN_SCRUBBED.load(Ordering::Relaxed)
+}
+
+#[inline]
+pub(crate) fn count_nan_scrubbed() {
+	NAN_SCRUBBED.fetch_add(1, Ordering::Relaxed);
 }
